@@ -159,7 +159,8 @@ Anchors(stream) == [p \in DOMAIN stream |-> AnchorOf(stream, p)]
 \*     are differences of sequence numbers);
 \*   - consecutive frames have different timestamps (so "frame" is what the builder can see);
 \*   - the stream is shorter than half the sequence-number space;
-\*   - no time-based purging (WithMaxTimeDelay off);
+\*   - no time-based purging (WithMaxTimeDelay off, or the whole stream spans no more than the configured delay,
+\*     so that nothing is ever too old);
 \*   - Flush is called after the last push and Pop only after that Flush (a builder popped while the
 \*     first packets are still in flight cannot know they exist and may rightly skip them).
 \* static part: what the stream must look like
